@@ -289,6 +289,17 @@ func Layers(s *core.Source, o LayerOpts) mvt.Layers {
 			f.Properties = Props(s)
 			l.Features = append(l.Features, f)
 		})
+		if o.Repetitive && len(l.Features) > 0 && s.Chance(1, 60, "manykeys") {
+			// key and value tables beyond 127 / 255 entries: tag indices need 2-byte varints
+			nk := []int{130, 300}[s.Intn(2, "nk")]
+			for i := 0; i < nk; i++ {
+				f := l.Features[i%len(l.Features)]
+				if f.Properties == nil {
+					f.Properties = geojson.Properties{}
+				}
+				f.Properties[fmt.Sprintf("k%03d", i)] = float64(i) + 0.5
+			}
+		}
 		if o.Repetitive && len(l.Features) > 0 && s.Chance(1, 120, "repetitive") {
 			// real tiles are repetitive: the same feature many times over (compresses far better than 40:1)
 			n := []int{100, 1200}[s.Intn(2, "reps")]
